@@ -52,6 +52,8 @@ type Script struct {
 	Hint        int         `json:"hint"`
 	Boundaries  []Boundary  `json:"boundaries"`
 	WrongDigest bool        `json:"wrong_digest"`
+	// CommitAfterClose: the handle is closed before it is asked to commit
+	CommitAfterClose bool `json:"commit_after_close,omitempty"`
 	// FailReq: the n-th data-carrying request (PATCH or PUT) of the caller's client fails before it is
 	// sent (a transient transport fault); the caller repeats the call that failed. 0 = none. Only used
 	// when the caller talks to exactly one client (no unifier above it).
@@ -388,6 +390,32 @@ func run(s Script, v *vt.V) {
 				}
 			}
 		}
+	} else if s.CommitAfterClose {
+		// the handle is closed, then asked to commit all the same: it may refuse, but a commit that
+		// reports success has stored the blob
+		v.Class("commit-after-close")
+		if err := w.Close(); err != nil {
+			fail(oneByteSig(0, written), "Close before the commit: %v", err)
+			return
+		}
+		desc, err := w.Commit(dg)
+		if err == nil {
+			if desc.Digest != dg || desc.Size != int64(len(content)) {
+				fail("", "Commit on the closed handle returned %v/%d, want %v/%d", desc.Digest, desc.Size, dg, len(content))
+				return
+			}
+			got, rerr := readBack(dg)
+			if rerr != nil {
+				fail("commit-success-without-blob", "Commit on a handle that had been closed reported success (%v/%d) but the blob is not retrievable: %v", desc.Digest, desc.Size, rerr)
+				return
+			}
+			for where, data := range got {
+				if !bytes.Equal(data, content) {
+					fail("corrupt-upload", "%s holds %d bytes that differ from the %d written", where, len(data), len(content))
+					return
+				}
+			}
+		}
 	} else {
 		arm(true)
 		desc, err := w.Commit(dg)
@@ -496,7 +524,8 @@ func genScript(t *rapid.T) Script {
 		}
 	}
 	s.WrongDigest = rapid.IntRange(0, 5).Draw(t, "wrongDigest") == 0
-	if !s.WrongDigest && rapid.IntRange(0, 3).Draw(t, "transientFault") == 0 {
+	s.CommitAfterClose = !s.WrongDigest && rapid.IntRange(0, 7).Draw(t, "commitAfterClose") == 0
+	if !s.WrongDigest && !s.CommitAfterClose && rapid.IntRange(0, 3).Draw(t, "transientFault") == 0 {
 		s.FailReq = rapid.IntRange(1, 4).Draw(t, "failReq")
 	}
 	return s
@@ -505,7 +534,7 @@ func genScript(t *rapid.T) Script {
 var prop = &vt.Prop[Script]{
 	ID:   "C04",
 	Name: "ChunkedUpload",
-	Rule: "content lengths {0,1,2,3, c-1,c,c+1, 2c-1,2c,2c+1, 3c+2 (c=8192); thorough also around 64 KiB} and small; partition into <=6 Write calls (sizes incl. 0, 1, c-1..c+1, larger than the content); chunk hint {-1,0,1,100,8191,8192,8193,20000}; any subset of write boundaries closed (a quarter of them closed twice, then asked Size and ID, which must return) +resumed with explicit offset or -1 (-1 with exactly one byte received excluded as stated); optional probe at size+delta with junk data that must be refused with ErrRangeInvalid (416 on every hop) and leave the upload unaltered, also when the wrong-offset writer is given a Write of no bytes first, when a second handle is opened on the session (at -1 or at the right offset) between opening the wrong-offset writer and its first Write, and when the refused writer is closed only once the upload has reached the offset it aimed at; right/wrong commit digest; optionally the n-th data-carrying request of the caller's client fails before it is sent and the caller repeats the failed Write / Commit (nothing buffered may get lost); stacks {mem, 1 hop, 2 hops, unify(mem,mem) both policies, http over unify, unify over http, debug+http(NoSinglePost)+debug}; oracle = Size() after every step, commit descriptor, bytes read back from the top and from every member registry; non-trivial = >=1 resume, >=2 writes or length <= 2; distinct = whole script",
+	Rule: "content lengths {0,1,2,3, c-1,c,c+1, 2c-1,2c,2c+1, 3c+2 (c=8192); thorough also around 64 KiB} and small; partition into <=6 Write calls (sizes incl. 0, 1, c-1..c+1, larger than the content); chunk hint {-1,0,1,100,8191,8192,8193,20000}; any subset of write boundaries closed (a quarter of them closed twice, then asked Size and ID, which must return) +resumed with explicit offset or -1 (-1 with exactly one byte received excluded as stated); optional probe at size+delta with junk data that must be refused with ErrRangeInvalid (416 on every hop) and leave the upload unaltered, also when the wrong-offset writer is given a Write of no bytes first, when a second handle is opened on the session (at -1 or at the right offset) between opening the wrong-offset writer and its first Write, and when the refused writer is closed only once the upload has reached the offset it aimed at; right/wrong commit digest; a commit asked of a handle that was closed first (it may refuse; success means the blob is there); optionally the n-th data-carrying request of the caller's client fails before it is sent and the caller repeats the failed Write / Commit (nothing buffered may get lost); stacks {mem, 1 hop, 2 hops, unify(mem,mem) both policies, http over unify, unify over http, debug+http(NoSinglePost)+debug}; oracle = Size() after every step, commit descriptor, bytes read back from the top and from every member registry; non-trivial = >=1 resume, >=2 writes or length <= 2; distinct = whole script",
 	Gen:  genScript,
 	Run:  run,
 }
